@@ -322,6 +322,16 @@ def _legacy(chk, repo):
         unparse(lp.body[0]) == f"{ps[1]}[{lp.target.id}][:, {ps[3]}] = {ps[2]}[{lp.target.id}]"
     chk.add("C09-R4", f"{ci.qual}._store_samples", ok and init_ok, site(repo, ss), "stores every block's value in column i",
             "not every block is stored, or sampling does not start from _get_initial_points()", ss)
+    # continuation: the history of a further call is the stored sweeps FOLLOWED by the new columns (sweeps are stored at absolute indices Ns_old + i)
+    from .common import match as _match, stmts as _stmts
+    al = repo.method(ci, "_allocate_samples")[1]
+    forms = (["for: $p : self.par_names", "$S[$p]=np.hstack((self.samples[$p],$S[$p]))"], ["for: $p : self.par_names", "$S[$p]=np.hstack([self.samples[$p],$S[$p]])"],
+             ["for: $p : self.par_names", "$S[$p]=np.concatenate((self.samples[$p],$S[$p]),axis=1)"], ["for: $p : self.par_names", "$S[$p]=np.concatenate([self.samples[$p],$S[$p]],axis=1)"])
+    okc = any(_match(repo, ci, al, f_) is not None for f_ in forms)
+    recc = any(("hstack" in t or "concatenate" in t or "append" in t) and "self.samples[" in t for t, _ in _stmts(repo, ci, al))
+    chk.decide("C09-R4", f"{ci.qual}._allocate_samples/append", okc, recc, site(repo, al), "continuation history = [stored sweeps, new columns]",
+               "on a continuation call the new (empty) columns are not appended BEHIND the stored sweeps: the sweeps are then written over earlier ones "
+               "and the recorded history is not the sequence of states the sampler visited", al)
     # continuation priority
     gip_src = repo.method(ci, "_get_initial_points")[1]
     gip = canon_fn(repo, ci, gip_src, 1)
